@@ -12,7 +12,8 @@ _T_DIFF = ("finite tables regenerated from the live code and proved equal by dec
 _T_TR = "source-to-Lean TRANSLATION (Python ast -> Lean, regenerated every run) of {what}, each translated definition proved EQUAL to the model; plus "
 TECHNIQUE = {
     "C05": _T_BASE + _T_TR.format(what="the lookup classes (serialize/lookup.py, parse/lookup.py) and split_iri") + _T_DIFF,
-    "C18": _T_BASE + _T_TR.format(what="the lookup classes (Lookup.insert / make_last_to_evict / encode_entry_index: the pinning logic)") + _T_DIFF,
+    "C18": _T_BASE + _T_TR.format(what="the lookup classes (Lookup.insert / make_last_to_evict / encode_entry_index: the pinning logic) and the row bracket TermEncoder.start_row / end_row") + _T_DIFF,
+    "C20": _T_BASE + _T_TR.format(what="the row bracket TermEncoder.start_row / end_row (when a stream refuses to go on) and the pinning logic of the lookup classes") + _T_DIFF,
     "C06": _T_BASE + _T_TR.format(what="the frame-flow classes (serialize/flows.py)") + _T_DIFF,
     "C07": _T_BASE + _T_TR.format(what="the grouped frame-flow classes (serialize/flows.py)") + _T_DIFF,
     "C11": _T_BASE + _T_TR.format(what="the bounded frame-flow classes (serialize/flows.py)") + _T_DIFF,
